@@ -283,6 +283,7 @@ def triu(x, k=0):
     from .core import COO
 
     check_zero_fill_value(x)
+    x = asCOO(x, name="triu")
 
     if not x.ndim >= 2:
         raise NotImplementedError("sparse.triu is not implemented for scalars or 1-D arrays.")
@@ -324,6 +325,7 @@ def tril(x, k=0):
     from .core import COO
 
     check_zero_fill_value(x)
+    x = asCOO(x, name="tril")
 
     if not x.ndim >= 2:
         raise NotImplementedError("sparse.tril is not implemented for scalars or 1-D arrays.")
@@ -859,6 +861,7 @@ def diagonal(a, offset=0, axis1=0, axis2=1):
     """
     from .core import COO
 
+    a = asCOO(a, name="diagonal")
     axis1 = normalize_axis(axis1, a.ndim)
     axis2 = normalize_axis(axis2, a.ndim)
     if axis1 == axis2:
